@@ -94,9 +94,9 @@ func (m *vmodel) cropClass(L, T, W, H int) string {
 		return "negative-size"
 	case W == 0 || H == 0:
 		return "zero-size"
-	case m.l+L+W > m.uw || m.t+T+H > m.uh:
+	case satAdd(satAdd(m.l, L), W) > m.uw || satAdd(satAdd(m.t, T), H) > m.uh:
 		return "overflow-underlying"
-	case L+W > m.w || T+H > m.h:
+	case satAdd(L, W) > m.w || satAdd(T, H) > m.h:
 		return "overflow-view"
 	}
 	return "in-range"
@@ -252,4 +252,14 @@ func modelBlackRow(lum []uint8) ([]bool, bool) {
 		out[x] = (4*int(lum[x])-int(lum[x-1])-int(lum[x+1]))/2 < bp
 	}
 	return out, true
+}
+
+// satAdd adds two non-negative ints, saturating at the largest int (the rectangle arithmetic of
+// the model must not wrap for arguments near the end of the int range).
+func satAdd(a, b int) int {
+	const maxInt = int(^uint(0) >> 1)
+	if a > maxInt-b {
+		return maxInt
+	}
+	return a + b
 }
